@@ -969,11 +969,15 @@ func (this *encodingTask) encode(res *encodingTaskResult) {
 		return
 	}
 
+	simhook.Point("enc.entropy", int(this.currentBlockID))
+
 	// Entropy encode block
 	if _, err = ee.Write(buffer[0:postTransformLength]); err != nil {
 		res.err = &IOError{msg: err.Error(), code: kanzi.ERR_PROCESS_BLOCK}
 		return
 	}
+
+	simhook.Point("enc.entropy.done", int(this.currentBlockID))
 
 	// Dispose before displaying statistics. Dispose may write to the bitstream
 	ee.Dispose()
@@ -2074,6 +2078,8 @@ func (this *decodingTask) decode(res *decodingTaskResult) {
 		return
 	}
 
+	simhook.Point("dec.entropy", int(this.currentBlockID))
+
 	// Block entropy decode
 	if _, err = ed.Read(buffer[0:preTransformLength]); err != nil {
 		// Error => cancel concurrent decoding tasks
@@ -2081,6 +2087,7 @@ func (this *decodingTask) decode(res *decodingTaskResult) {
 		return
 	}
 
+	simhook.Point("dec.entropy.done", int(this.currentBlockID))
 	ed.Dispose()
 	ibs.Close()
 
